@@ -1240,7 +1240,7 @@ def finish(ctx):
     ctx.need("mc:kinds=" + kinds, 60)
   for kinds in ("NNN", "SNN"):
     for sub in ("step0", "batched", "seq"):
-      ctx.need("mc:%s:%s" % (kinds, sub), 30)
+      ctx.need("mc:%s:%s" % (kinds, sub), 12)
     ctx.need("mc:%s:batched_reset" % kinds, 20)
     ctx.need("mc:%s:batched_reset_twice" % kinds, 10)
   ctx.need("mc:batched_inexact_ratio", 20)
